@@ -40,6 +40,8 @@ type kindCfg struct {
 	Kind       string `json:"kind"`
 	Method     string `json:"method"` // "", OnDelete, Recreate, InPlace, RollingRecreate, RollingInPlace, "<nil>" (no strategy block)
 	StatusCond string `json:"statusCond,omitempty"`
+	// StatusCheck: "" none | "type" | "type+status" | "type+status+reason" on condition Ready/True/Ok
+	StatusCheck string `json:"statusCheck,omitempty"`
 }
 
 type kidCfg struct {
@@ -142,6 +144,16 @@ func (sc *scenario) worldCfg() worldCfg {
 		if k.StatusCond != "" {
 			st := "True"
 			cc.Checks = []v1alpha1.StatusConditionCheck{{Type: k.StatusCond, Status: &st}}
+		}
+		switch k.StatusCheck {
+		case "type":
+			cc.Checks = []v1alpha1.StatusConditionCheck{{Type: "Ready"}}
+		case "type+status":
+			st := "True"
+			cc.Checks = []v1alpha1.StatusConditionCheck{{Type: "Ready", Status: &st}}
+		case "type+status+reason":
+			st, rs := "True", "Ok"
+			cc.Checks = []v1alpha1.StatusConditionCheck{{Type: "Ready", Status: &st, Reason: &rs}}
 		}
 		cfg.Children = append(cfg.Children, cc)
 	}
